@@ -507,6 +507,8 @@ def model(m, s, fi, t, fk, args, site):
             return good
         if n in ("is_none", "is_err"):
             return not good
+        if n == "zip" and len(args) == 2 and v0.name == OPT and isinstance(A[1], Adt) and A[1].name == OPT and d.startswith("core::option::Option"):
+            return some(Tup((v0.fields[0], A[1].fields[0]))) if good and A[1].variant == "Some" else NONE
         if n == "ok" and v0.name == RES:
             return some(v0.fields[0]) if good else NONE
         if n == "err" and v0.name == RES:
